@@ -185,6 +185,48 @@ func c07SubkeyAlignment(c *Ctx, r *Report) {
 				}
 			}
 		}
+		// the same insertion written out: w := append(item.submatches, 0); copy(w[idx+1:], w[idx:]); w[idx] = 0; item.submatches = w
+		if !shifted {
+			var w types.Object
+			grown, moved, zeroed, stored := false, false, false, false
+			for _, st := range rs.Body.List {
+				switch t := st.(type) {
+				case *ast.AssignStmt:
+					if len(t.Lhs) != 1 || len(t.Rhs) != 1 {
+						continue
+					}
+					if ce, ok := ast.Unparen(t.Rhs[0]).(*ast.CallExpr); ok && calleeName(info, ce) == "builtin.append" && len(ce.Args) == 2 && fieldNamed(info, ce.Args[0], "submatches") {
+						if v, isC := constInt(info, ce.Args[1]); isC && v == 0 {
+							w = identObj(info, t.Lhs[0])
+							grown = w != nil
+						}
+					}
+					if ix, ok := ast.Unparen(t.Lhs[0]).(*ast.IndexExpr); ok && w != nil && identObj(info, ix.X) == w && identObj(info, ix.Index) == idxObj {
+						if v, isC := constInt(info, t.Rhs[0]); isC && v == 0 {
+							zeroed = true
+						}
+					}
+					if fieldNamed(info, t.Lhs[0], "submatches") && w != nil && identObj(info, t.Rhs[0]) == w {
+						stored = true
+					}
+				case *ast.ExprStmt:
+					if ce, ok := t.X.(*ast.CallExpr); ok && calleeName(info, ce) == "builtin.copy" && len(ce.Args) == 2 && w != nil {
+						d, ok1 := ast.Unparen(ce.Args[0]).(*ast.SliceExpr)
+						sr, ok2 := ast.Unparen(ce.Args[1]).(*ast.SliceExpr)
+						if ok1 && ok2 && identObj(info, d.X) == w && identObj(info, sr.X) == w && d.High == nil && sr.High == nil && identObj(info, sr.Low) == idxObj {
+							if be, isB := ast.Unparen(d.Low).(*ast.BinaryExpr); isB && be.Op == token.ADD && identObj(info, be.X) == idxObj {
+								if v, isC := constInt(info, be.Y); isC && v == 1 {
+									moved = true
+								}
+							}
+						}
+					}
+				}
+			}
+			if grown && moved && zeroed && stored {
+				shifted = true
+			}
+		}
 		return true
 	})
 	r.Check(shifted, rule, fi.Name, "every item gets a 0 at idx", c.Pos(fi.Decl.Pos()), "agreement: each existing row's cells are shifted at the same index, unconditionally", "not every existing item gets a zero cell inserted at the index of the new sub-key")
